@@ -5,6 +5,14 @@ HERE = os.path.dirname(os.path.dirname(os.path.abspath(__file__)))
 ALL = [f"C{i:02d}" for i in range(1, 19)]
 # property -> (technique, level text, level note, design_ref)
 CHECKS = {
+ "C05": ("runtime reference-model monitor: closed-form textbook log-densities (NumPy float64, scipy.stats second opinion) vs the public "
+         "log_prob at interior/edge/outside/far-tail points, accessors vs constructor arguments, seeded KS goodness-of-fit of the samplers "
+         "with the DKW bound, mixtures vs weighted logsumexp and weight rescaling",
+         "Exploration: 12 families x generated broadcastable parameter arrays x ~60 points (2.4e4 density cases, ~200 accessor checks, "
+         "~50 sampler tests of n=20000 per quick run).",
+         "Sampler clause detects CDF discrepancies above 0.023 only (false-alarm bound 1e-9 per test); density tolerance 1e-9 relative; "
+         "points within floating-point resolution of a support edge accept both conventions.",
+         "DESIGN.md 4/C05"),
  "C07": ("runtime reference-model monitor: independent float64 NumPy implementations of every elementary bijection (written from the "
          "docstrings and cited papers) compared with transform() of real objects built from generated constructor arguments",
          "Exploration: 15 kinds x generated constructor arguments x 2 parameter modes x ~60 boundary-directed inputs (6.6e4 cases per "
